@@ -22,6 +22,12 @@ var Corpus = [][]string{
 	{"||", `POST /proxies h {"name":"p1","listen":"127.0.0.1:$A","upstream":"u:1"}`, `POST /proxies h {"name":"p1","listen":"127.0.0.1:$B","upstream":"u:1"}`,
 		`POST /proxies h {"name":"p2","listen":"127.0.0.1:$A","upstream":"u:1"}`},
 	{`POST /proxies h {"name":"p1","listen":"127.0.0.1:$A","upstream":"u:1"}`, "||", `DELETE /proxies/p1 h -`, `DELETE /proxies/p1 h -`, `DELETE /proxies/p1 h -`},
+	// two updates of one toxic that set different fields (bodies may arrive slowly): neither is lost
+	{`POST /proxies h {"name":"p1","listen":"127.0.0.1:$A","upstream":"u:1"}`, `POST /proxies/p1/toxics h {"name":"t1","type":"latency","attributes":{"latency":1}}`, "||",
+		`POST /proxies/p1/toxics/t1 h {"attributes":{"latency":100}}`, `POST /proxies/p1/toxics/t1 h {"attributes":{"jitter":50}}`, `POST /proxies/p1/toxics/t1 h {"toxicity":0.25}`},
+	// a toxic add racing the removal of the same name, and two adds of one name
+	{`POST /proxies h {"name":"p1","listen":"127.0.0.1:$A","upstream":"u:1"}`, `POST /proxies/p1/toxics h {"name":"t1","type":"latency","attributes":{"latency":1}}`, "||",
+		`DELETE /proxies/p1/toxics/t1 h -`, `POST /proxies/p1/toxics h {"name":"t1","type":"noop","attributes":{}}`, `POST /proxies/p1/toxics h {"name":"t1","type":"timeout","attributes":{}}`},
 }
 
 func Episode(r *rng.R) []string {
@@ -63,7 +69,17 @@ func Episode(r *rng.R) []string {
 		case 8, 9:
 			ops = append(ops, fmt.Sprintf(`POST /proxies/%s/toxics h {"name":"t%d","type":%q,"attributes":{}}`, p, 1+r.Intn(2), r.PickS("latency", "noop", "timeout")))
 		case 10:
-			ops = append(ops, fmt.Sprintf(`POST /proxies/%s/toxics/t%d h {"attributes":{"latency":%d},"toxicity":0.5}`, p, 1+r.Intn(2), r.Intn(9)))
+			// updates that each set only part of the toxic: overlapping ones must not undo each other
+			switch r.Intn(4) {
+			case 0:
+				ops = append(ops, fmt.Sprintf(`POST /proxies/%s/toxics/t%d h {"attributes":{"latency":%d},"toxicity":0.5}`, p, 1+r.Intn(2), r.Intn(9)))
+			case 1:
+				ops = append(ops, fmt.Sprintf(`POST /proxies/%s/toxics/t%d h {"attributes":{"latency":%d}}`, p, 1+r.Intn(2), 10+r.Intn(9)))
+			case 2:
+				ops = append(ops, fmt.Sprintf(`POST /proxies/%s/toxics/t%d h {"attributes":{"jitter":%d}}`, p, 1+r.Intn(2), 1+r.Intn(9)))
+			default:
+				ops = append(ops, fmt.Sprintf(`POST /proxies/%s/toxics/t%d h {"toxicity":0.25}`, p, 1+r.Intn(2)))
+			}
 		case 11:
 			ops = append(ops, fmt.Sprintf("DELETE /proxies/%s/toxics/t%d h -", p, 1+r.Intn(2)))
 		case 12:
